@@ -51,7 +51,7 @@ TRUSTED = [
     "value conditions inside walkers are taken as 'leaf present and non-empty'; flags at their defaults",
     "int() of a \\d+ group is taken as total (the 4300-digit limit of CPython is outside the document model)",
 ]
-FLOORS = {"C02-WALK": 150, "C02-EXCL": 30, "C02-SINK": 6, "C02-FALLBACK": 20, "C02-BYTES": 21, "C02-ONCE": 100, "C02-TRIM": 8}
+FLOORS = {"C02-WALK": 150, "C02-EXCL": 30, "C02-SINK": 6, "C02-FALLBACK": 20, "C02-BYTES": 24, "C02-REPEAT": 2, "C02-ONCE": 100, "C02-TRIM": 8}
 
 # ------------------------------------------------------------------------------------------------ WALK
 
@@ -864,6 +864,42 @@ def rule_bytes(ctx: Ctx) -> RuleReport:
                     rep.fail(Finding("C02-BYTES", X + "html_extractor.py", rh.qual, f"BOM {b.hex()} kept", f"the branch that recognises the byte order mark {b!r} does not remove it (`{recv} = {recv}[{len(b)}:]`): U+FEFF is decoded into the text and comes out in front of the body", line=i.lineno))
     if boms < 3:
         raise AnalysisError(f"C02-BYTES: only {boms} byte-order-mark branches recognised in read_html (3 confirmed)")
+    # (f) mailparser hands out the text parts of a message as lists: the body is all of them, never one picked by position
+    em = ctx.p.module(X + "mail/eml_email_extractor.py")
+    parts_seen = 0
+    for fi in em.functions.values():
+        for x in ast.walk(fi.node):
+            if isinstance(x, ast.Attribute) and x.attr in ("text_plain", "text_html"):
+                parts_seen += 1
+        for sub in ast.walk(fi.node):
+            if isinstance(sub, ast.Subscript) and isinstance(sub.value, ast.Attribute) and sub.value.attr in ("text_plain", "text_html") and not isinstance(sub.slice, ast.Slice):
+                rep.fail(Finding("C02-BYTES", em.rel, fi.qual, "one body part picked: " + anorm(sub, fi.node), f"`{short(sub, 50)}` takes one element of the list of {sub.value.attr} parts: in a message laid out text / inline image / text the text after the image is dropped from the body", line=sub.lineno))
+    if parts_seen < 4:
+        raise AnalysisError("C02-BYTES: the .eml reader no longer reads mail.text_plain / mail.text_html")
+    rep.ok({"eml_body": "all text parts joined"})
+    # (g) the stdlib-based mail reader: inside the walk over the parts every inline text part contributes to the body
+    mb = ctx.p.module(X + "mail/mbox_email_extractor.py")
+    walkers = [fi for fi in mb.functions.values() if any(isinstance(l, ast.For) and isinstance(l.iter, ast.Call) and isinstance(l.iter.func, ast.Attribute) and l.iter.func.attr == "walk" for l in walk_own(fi.node))
+               and any(isinstance(r, ast.Return) and isinstance(r.value, ast.Tuple) and len(r.value.elts) == 2 and all(isinstance(e, ast.Name) for e in r.value.elts) for r in walk_own(fi.node))]
+    if len(walkers) != 1:
+        raise AnalysisError("C02-BYTES: the body collector of the mbox reader (walk loop returning (plain, html)) was not found")
+    bw = walkers[0]
+    rep.unit(bw.key)
+    bodies = {e.id for r in walk_own(bw.node) if isinstance(r, ast.Return) and isinstance(r.value, ast.Tuple) for e in r.value.elts if isinstance(e, ast.Name)}
+    loop = next(l for l in walk_own(bw.node) if isinstance(l, ast.For) and isinstance(l.iter, ast.Call) and isinstance(l.iter.func, ast.Attribute) and l.iter.func.attr == "walk")
+    for b in sorted(bodies):
+        stores = [a for a in ast.walk(loop) if isinstance(a, (ast.Assign, ast.AugAssign)) and any(isinstance(t, ast.Name) and t.id == b for t in (a.targets if isinstance(a, ast.Assign) else [a.target]))]
+        if not stores:
+            raise AnalysisError(f"C02-BYTES: `{b}` is not filled inside the walk loop of {bw.key}")
+        first_only = [i for i in ast.walk(loop) if isinstance(i, ast.If) and any(st is a or any(x is a for x in ast.walk(st)) for st in i.body for a in stores)
+                      and any(isinstance(u, ast.UnaryOp) and isinstance(u.op, ast.Not) and isinstance(u.operand, ast.Name) and u.operand.id == b for u in ast.walk(i.test))]
+        accum = all(isinstance(a, ast.AugAssign) or any(isinstance(x, ast.Name) and x.id == b for x in ast.walk(a.value)) for a in stores)
+        if first_only or not accum:
+            w = first_only[0] if first_only else stores[0]
+            rep.fail(Finding("C02-BYTES", mb.rel, bw.qual, f"only the first part reaches {anorm(ast.Name(id=b, ctx=ast.Load()), bw.node)}: " + (anorm(w.test, bw.node) if first_only else anorm(w, bw.node))[:90],
+                             f"`{b}` takes one text part and ignores the others (`{short(w.test if first_only else w, 60)}`): in a message laid out text / inline image / text the text after the image is missing from the body (the .eml reader joins all parts)", line=w.lineno))
+        else:
+            rep.ok({"mbox_body": b, "parts": "accumulated"})
     # (c) plain text: the detector judges the whole input; the text is what the detector decoded; lossy decoding only after it failed
     dd = ctx.p.func(PLAIN, "_detect_and_decode")
     rep.unit(dd.key)
@@ -894,6 +930,54 @@ def rule_bytes(ctx: Ctx) -> RuleReport:
     return rep
 
 
+def rule_repeat(ctx: Ctx) -> RuleReport:
+    """ODF run-length attributes (number-rows-repeated / number-columns-repeated): the count may be ignored only for empty content."""
+    ODS = X + "open_office/ods_extractor.py"
+    rep = RuleReport("C02-REPEAT", "a row / cell that is stored once with a repeat count is emitted that many times; the count is dropped only under a test that the repeated content is empty")
+    sh = ctx.p.func(ODS, "_extract_sheet")
+    rep.unit(sh.key)
+    reps = {n.targets[0].id for n in walk_own(sh.node) if isinstance(n, ast.Assign) and len(n.targets) == 1 and isinstance(n.targets[0], ast.Name)
+            and isinstance(n.value, ast.Call) and norm(n.value.func) == "int" and n.value.args and isinstance(n.value.args[0], ast.Call) and isinstance(n.value.args[0].func, ast.Attribute) and n.value.args[0].func.attr == "get"
+            and "REPEAT" in norm(n.value.args[0]).upper()}
+    if len(reps) < 2:
+        raise AnalysisError(f"C02-REPEAT: the repeat counts of _extract_sheet were not found ({sorted(reps)})")
+
+    def multiplies(stmts, r):
+        return any(isinstance(b, ast.BinOp) and isinstance(b.op, ast.Mult) and any(isinstance(x, ast.Name) and x.id == r for x in ast.walk(b)) for st in stmts for b in ast.walk(st))
+
+    def emptiness(c) -> bool:
+        if isinstance(c, ast.Compare) and len(c.ops) == 1 and isinstance(c.ops[0], ast.Is) and isinstance(c.comparators[0], ast.Constant) and c.comparators[0].value is None:
+            return True
+        if isinstance(c, ast.Call) and isinstance(c.func, ast.Name) and c.func.id == "all" and c.args and isinstance(c.args[0], (ast.GeneratorExp, ast.ListComp)):
+            return emptiness(c.args[0].elt)
+        if isinstance(c, ast.UnaryOp) and isinstance(c.op, ast.Not) and isinstance(c.operand, ast.Call) and isinstance(c.operand.func, ast.Name) and c.operand.func.id == "any":
+            return True
+        return False
+
+    n = 0
+    for r in sorted(reps):
+        uses = [i for i in walk_own(sh.node) if isinstance(i, ast.If) and (multiplies(i.body, r) != multiplies(i.orelse, r))]
+        plain = [st for st in walk_own(sh.node) if isinstance(st, ast.Expr) and multiplies([st], r)]
+        if not uses and not plain:
+            rep.fail(Finding("C02-REPEAT", ODS, sh.qual, "repeat count unused", f"the repeat count `{r}` is never applied: repeated rows / cells appear once", line=sh.node.lineno))
+            continue
+        for i in uses:
+            n += 1
+            conj = i.test.values if isinstance(i.test, ast.BoolOp) and isinstance(i.test.op, ast.And) else [i.test]
+            dropping_in_body = not multiplies(i.body, r)
+            if dropping_in_body and any(emptiness(c) for c in conj):
+                rep.ok({"repeat": r, "dropped_only_when": anorm(i.test, sh.node)})
+            elif not dropping_in_body:
+                # `if <non-empty>: multiply else: once` — the else branch is the complement; accept only the direct negation form
+                rep.residual.append(f"{sh.key}: repeat `{r}` dropped in an else branch; not judged")
+                rep.obligations += 1
+            else:
+                rep.fail(Finding("C02-REPEAT", ODS, sh.qual, "repeat dropped when " + anorm(i.test, sh.node), f"the repeat count `{r}` is ignored whenever `{short(i.test, 60)}`, without a test that the repeated content is empty: a data row stored once with a large repeat count appears once in the text and in the table", line=i.lineno))
+    if n < 2:
+        raise AnalysisError(f"C02-REPEAT: only {n} repeat decisions found in _extract_sheet (2 confirmed)")
+    return rep
+
+
 def rule_once(ctx: Ctx) -> RuleReport:
     """A text accessor that writes into the stored pieces (e.g. extends body_text while combining) repeats text on the next call."""
     from sa.rules.c06 import rule_pure
@@ -918,4 +1002,4 @@ def rule_trim(ctx: Ctx) -> RuleReport:
     return rep
 
 
-RULES = [rule_walk, rule_excl, rule_sink, rule_fallback, rule_bytes, rule_once, rule_trim]
+RULES = [rule_walk, rule_excl, rule_sink, rule_fallback, rule_bytes, rule_repeat, rule_once, rule_trim]
